@@ -490,14 +490,13 @@ class ElementWalker(object):
 
         if base_link:
             # lxml returns codebase as inline
-            link_type = element.attrib.get(base_link)
             yield LinkInfo(
                 element=element, tag=element.tag, attrib='codebase',
                 link=base_link,
                 inline=True, linked=False,
                 base_link=None,
                 value_type='plain',
-                link_type=link_type
+                link_type=None
             )
 
         for attribute in ('code', 'src', 'classid', 'data'):
